@@ -1859,29 +1859,54 @@ where
         snap.conn.push(("store_ids", ids as i64));
         snap.conn.push(("store_slab", slab as i64));
         snap.conn.push(("refs", me.refs as i64));
-        snap.conn.push(("send_buffer_len", send_buffer.verif_len() as i64));
-        snap.conn.push(("conn_error", me.actions.conn_error.is_some() as i64));
-        snap.conn.push(("conn_task", me.actions.task.is_some() as i64));
-        for s in me.store.verif_streams() {
+        snap.conn
+            .push(("send_buffer_len", send_buffer.verif_len() as i64));
+        snap.conn
+            .push(("conn_error", me.actions.conn_error.is_some() as i64));
+        snap.conn
+            .push(("conn_task", me.actions.task.is_some() as i64));
+        for (s, linked) in me.store.verif_streams() {
             let mut v: Vec<(&'static str, i64)> = Vec::new();
             v.push(("id", u32::from(s.id) as i64));
+            v.push(("linked", linked as i64));
             v.push(("is_counted", s.is_counted as i64));
             v.push(("ref_count", s.ref_count as i64));
-            v.push(("send_window", isize::from(s.send_flow.window_size_raw()) as i64));
-            v.push(("send_available", isize::from(s.send_flow.available()) as i64));
+            v.push((
+                "send_window",
+                isize::from(s.send_flow.window_size_raw()) as i64,
+            ));
+            v.push((
+                "send_available",
+                isize::from(s.send_flow.available()) as i64,
+            ));
             v.push(("requested_send_capacity", s.requested_send_capacity as i64));
             v.push(("buffered_send_data", s.buffered_send_data as i64));
             v.push(("send_capacity_inc", s.send_capacity_inc as i64));
-            v.push(("pending_send_len", s.pending_send.verif_len(&send_buffer) as i64));
+            v.push((
+                "pending_send_len",
+                s.pending_send.verif_len(&send_buffer) as i64,
+            ));
             v.push(("is_pending_send", s.is_pending_send as i64));
-            v.push(("is_pending_send_capacity", s.is_pending_send_capacity as i64));
+            v.push((
+                "is_pending_send_capacity",
+                s.is_pending_send_capacity as i64,
+            ));
             v.push(("is_pending_open", s.is_pending_open as i64));
             v.push(("is_pending_push", s.is_pending_push as i64));
             v.push(("is_pending_accept", s.is_pending_accept as i64));
-            v.push(("recv_window", isize::from(s.recv_flow.window_size_raw()) as i64));
-            v.push(("recv_available", isize::from(s.recv_flow.available()) as i64));
+            v.push((
+                "recv_window",
+                isize::from(s.recv_flow.window_size_raw()) as i64,
+            ));
+            v.push((
+                "recv_available",
+                isize::from(s.recv_flow.available()) as i64,
+            ));
             v.push(("in_flight_recv_data", s.in_flight_recv_data as i64));
-            v.push(("is_pending_window_update", s.is_pending_window_update as i64));
+            v.push((
+                "is_pending_window_update",
+                s.is_pending_window_update as i64,
+            ));
             v.push(("is_pending_reset_expiration", s.reset_at.is_some() as i64));
             v.push((
                 "pending_recv_len",
